@@ -169,9 +169,9 @@ PROPS = {
         "report_fn": "c06_report",
         "harness": "C06",
         "n": {"quick": 500, "thorough": 12000},
-        "rule": "cases = generated dictionary (as for the tokenizer family, matrix connector) + a history of 1-5 operations drawn from {map with random permutations of the left/right ids, load a user lexicon (rows in the ORIGINAL ids, homographs of system words), clear it, write/read round trip} + in 1 of 3 cases one malformed mapping (too long, too short, mentions 0, duplicate, out of range) applied after the history + 1-3 sentences; observed: outcome of every operation, stored mapper tables, every connection cost, tokens/lattice of the final dictionary and of the base dictionary that was never mapped; non-trivial: all operations succeeded, at least one mapping is not the identity and some sentence has at least two tokens",
+        "rule": "cases = generated dictionary (as for the tokenizer family; connector = matrix.def in half of the cases, otherwise a generated bigram model compiled as raw or dual connector, with duplicate feature rows) + a history of 1-5 operations drawn from {map with random permutations of the left/right ids, load a user lexicon (rows in the ORIGINAL ids, homographs of system words), clear it, write/read round trip} + in 1 of 3 cases one malformed mapping (too long, too short, mentions 0, duplicate, out of range) applied after the history + 1-3 sentences; observed: outcome of every operation, stored mapper tables, every connection cost, tokens/lattice of the final dictionary and of the base dictionary that was never mapped; non-trivial: all operations succeeded, at least one mapping is not the identity and some sentence has at least two tokens",
         "trusted_base": [
-            "modelled, not verified: the three connectors' map_connection_ids (the model states their contract conn'(fr r)(fl l) = conn r l; the oracle checks it on the implementation for EVERY id pair of every case); raw/dual connector histories are generated by the C07 harness, this one uses matrix.def",
+            "modelled, not verified: the three connectors' map_connection_ids (the model states their contract conn'(fr r)(fl l) = conn r l; the oracle checks it on the implementation for EVERY id pair of every case); all three connector kinds are generated",
             "crawdad prefix search at list level; CSV parsing of user lexicons is C11's subject",
         ],
         "assumptions": ["fewer than 65535 ids per side"],
